@@ -203,3 +203,116 @@ func ruleSortedFresh(c *Ctx, rule, short, name string) {
 		c.und(rule, fn+"/shape", fd.Pos(), "no sort call or accepting return found")
 	}
 }
+
+// ruleOrientWalk: an orientation multiplied into a composed orientation has
+// been compared with NotOriented first. NotOriented is the zero of the
+// multiplication, so walking through a location that is an Orienter but
+// reports NotOriented collapses the product (and moves the reference
+// feature further up the chain than documented).
+func ruleOrientWalk(c *Ctx, rule string, names ...string) {
+	p := c.pkg("feat")
+	noObj, ok := p.Types.Scope().Lookup("NotOriented").(*types.Const)
+	if !ok {
+		c.missing("feat.NotOriented not found")
+	}
+	isNotOriented := func(v ssa.Value) bool {
+		k, ok := v.(*ssa.Const)
+		return ok && k.Value != nil && k.Value.ExactString() == noObj.Val().ExactString() && isNamed(k.Type(), p.PkgPath, "Orientation")
+	}
+	orientCallOn := func(v ssa.Value) ssa.Value { // v is x.Orientation(): returns x
+		call, ok := v.(*ssa.Call)
+		if !ok {
+			return nil
+		}
+		if call.Call.IsInvoke() && call.Call.Method.Name() == "Orientation" {
+			return call.Call.Value
+		}
+		if f := call.Call.StaticCallee(); f != nil && f.Name() == "Orientation" && len(call.Call.Args) == 1 {
+			return call.Call.Args[0]
+		}
+		return nil
+	}
+	// checkedAt: on every path to blk, `recv.Orientation() != NotOriented` (or val != NotOriented) was established
+	checkedAt := func(blk *ssa.BasicBlock, recv, val ssa.Value) bool {
+		for _, bf := range branchesAt(blk) {
+			x, y := bf.cond.X, bf.cond.Y
+			var other ssa.Value
+			left := true
+			if isNotOriented(y) {
+				other = x
+			} else if isNotOriented(x) {
+				other, left = y, false
+			} else {
+				continue
+			}
+			if effectiveOp(bf, left) != token.NEQ {
+				continue
+			}
+			if val != nil && other == val {
+				return true
+			}
+			if recv != nil && orientCallOn(other) == recv {
+				return true
+			}
+		}
+		return false
+	}
+	for _, name := range names {
+		fn := c.fn("feat", name)
+		n := 0
+		for _, b := range fn.Blocks {
+			for _, ins := range b.Instrs {
+				bo, ok := ins.(*ssa.BinOp)
+				if !ok || bo.Op != token.MUL || !isNamed(bo.Type(), p.PkgPath, "Orientation") {
+					continue
+				}
+				for _, m := range []ssa.Value{bo.X, bo.Y} {
+					recv := orientCallOn(m)
+					_, isPhi := m.(*ssa.Phi)
+					if recv == nil && (isPhi || isNotOriented(m)) {
+						continue // the accumulator
+					}
+					if _, isK := m.(*ssa.Const); isK {
+						continue
+					}
+					n++
+					key := fmt.Sprintf("feat.%s/multiplicand#%d", name, n)
+					good := false
+					if recv == nil {
+						good = checkedAt(b, nil, m)
+					} else if checkedAt(b, recv, nil) {
+						good = true
+					} else if phi, ok := recv.(*ssa.Phi); ok {
+						good = true
+						for i, e := range phi.Edges {
+							pred := phi.Block().Preds[i]
+							if !checkedAt(pred, e, nil) && !reachableOnlyChecked(pred, e, checkedAt) {
+								good = false
+							}
+						}
+					}
+					if good {
+						c.ok(rule, key, bo.Pos(), "the orientation multiplied in was compared with NotOriented on every path")
+					} else {
+						c.bad(rule, key, bo.Pos(), "an orientation is multiplied into the composed orientation without having been compared with NotOriented on every path: a location that implements Orienter but is not oriented zeroes the product, and the walk climbs past the documented reference feature")
+					}
+				}
+			}
+		}
+		if n == 0 {
+			c.und(rule, "feat."+name+"/multiplicand", fn.Pos(), "no orientation multiplication found")
+		}
+	}
+}
+
+// reachableOnlyChecked handles a predecessor block that merely jumps: the
+// check may dominate it through its own (single) predecessor chain.
+func reachableOnlyChecked(pred *ssa.BasicBlock, v ssa.Value, checkedAt func(*ssa.BasicBlock, ssa.Value, ssa.Value) bool) bool {
+	for i := 0; i < 4 && len(pred.Preds) == 1; i++ {
+		pred = pred.Preds[0]
+		if checkedAt(pred, v, nil) {
+			return true
+		}
+	}
+	return false
+}
